@@ -92,7 +92,9 @@ def build(seed, knobs):
                 s["redirect"] = True
                 s["sleep_ms"] += 150
             if rng.chance(1, 3):
-                s["steps"] = [[rng.pick([0, 3]), rng.pick([1, 2]), ("%s|%s\n" % (c, p)).encode().hex()]]
+                # what a child prints is its own business: text in any encoding, not only UTF-8
+                junk = rng.pick([b"", b"", b"caf\xe9 ", b"\xff\xfe ", b"\xe2\x82 "])
+                s["steps"] = [[rng.pick([0, 3]), rng.pick([1, 2]), (junk + ("%s|%s\n" % (c, p)).encode()).hex()]]
             sc.script["%s|%s" % (c, p)] = s
     sc.ck_plan = None
     if knobs.checkpoint:
@@ -102,7 +104,9 @@ def build(seed, knobs):
         ops = []
         for _ in range(rng.range(0, 4)):
             ops.append([rng.pick(["modify", "untracked"]), rng.below(n), rng.pick(["before", "after"])])
-        sc.ck_plan = {"pending": rng.chance(1, 2), "ops": ops}
+        # sometimes the changes are taken between two explicit commits (--begin / --end) instead
+        sc.ck_plan = {"pending": rng.chance(1, 2), "ops": ops,
+                      "range": [rng.below(n), rng.below(n)] if rng.chance(1, 3) else None}
     sc.dyn_disp = {}
     sc.chmod_plan = None
     cl = sc.command_list()
@@ -124,7 +128,9 @@ def build(seed, knobs):
                 sc.dyn_disp[victim] = "run"
     sc.listener_kill = None
     if knobs.listener:
-        sc.listener_kill = rng.pick([0.0, 0.03, 0.1, 0.3, 0.6])
+        # killed after so many seconds, or not a `log tail` at all: something that accepts the
+        # connection on the log port and closes it / answers with something that is no filter
+        sc.listener_kill = rng.pick([0.0, 0.03, 0.1, 0.3, 0.6, "fake_close", "fake_junk"])
         for k, sct in sc.script.items():
             if not sct.get("redirect"):
                 sct["steps"] = [[0, 1, ("%s one\n" % k).encode().hex()], [rng.pick([200, 400, 650]), 1, ("%s two\n" % k).encode().hex()],
@@ -201,6 +207,14 @@ def install(sc):
                 d = os.path.join(repo.dir, sc.targets[i]["path"])
                 with open(os.path.join(d, "file.txt" if kind == "modify" else "new_%s.txt" % when), "a") as f:
                     f.write("edit %s\n" % when)
+        sc.range_args = []
+        if sc.ck_plan.get("range") and not sc.named:
+            shas = [repo.git("rev-parse", "HEAD").strip()]
+            for k, i in enumerate(sc.ck_plan["range"]):
+                with open(os.path.join(repo.dir, sc.targets[i]["path"], "file.txt"), "a") as f:
+                    f.write("commit %d\n" % k)
+                shas.append(repo.commit_all("r%d" % k))
+            sc.range_args = ["--begin", shas[0], "--end", shas[1]]
         apply("before")
         if sc.ck_plan["pending"]:
             repo.mono("checkpoint", "update", "--pending")
@@ -216,9 +230,31 @@ def observe(sc, repo, model, timeout=120):
     desc["notexec"] = sorted("%s|%s" % k for k in sc.notexec)
     desc["points"] = sc.point_env
     # what analyze shows right before (no checkpoint in these scenarios => all targets)
-    rc_a, ja, _, _ = repo.mono("analyze", "--target-groups")
+    range_args = getattr(sc, "range_args", [])
+    rc_a, ja, _, _ = repo.mono("analyze", "--target-groups", *range_args)
     tail = None
-    if getattr(sc, "listener_kill", None) is not None:
+    fake = None
+    if isinstance(getattr(sc, "listener_kill", None), str):
+        import socket
+        import threading
+        fake = socket.socket()
+        fake.setsockopt(socket.SOL_SOCKET, socket.SO_REUSEADDR, 1)
+        fake.bind(("127.0.0.1", repo.log_port))
+        fake.listen(8)
+        desc["listener"] = sc.listener_kill
+
+        def serve(kind=sc.listener_kill, srv=fake):
+            try:
+                srv.settimeout(30)
+                while True:
+                    c, _ = srv.accept()
+                    if kind == "fake_junk":
+                        c.sendall(b"HTTP/1.1 400 Bad Request\r\n\r\n")
+                    c.close()
+            except OSError:
+                pass
+        threading.Thread(target=serve, daemon=True).start()
+    elif getattr(sc, "listener_kill", None) is not None:
         import logtail
         import threading
         tail = logtail.start_tail(repo, {"stdout": True, "stderr": True, "targets": [], "commands": []})
@@ -232,10 +268,13 @@ def observe(sc, repo, model, timeout=120):
     desc["chmod_plan"] = ({"actor": list(sc.chmod_plan["actor"]), "victim": list(sc.chmod_plan["victim"]), "mode": oct(sc.chmod_plan["mode"])}
                           if getattr(sc, "chmod_plan", None) else None)
     desc["sabotage"] = getattr(sc, "sabotage", None)
-    rc, j, out, err = repo.mono(*sc.argv(), extra_env=sc.point_env, timeout=timeout)
+    desc["range_args"] = range_args
+    rc, j, out, err = repo.mono(*(sc.argv() + range_args), extra_env=sc.point_env, timeout=timeout)
     if tail is not None:
         tail.kill()
         tail.wait()
+    if fake is not None:
+        fake.close()
     info = {"rc": rc}
     if rc is None:
         verdicts.append(("C06", {"kind": "run did not terminate", "scenario": desc}))
@@ -259,12 +298,16 @@ def observe(sc, repo, model, timeout=120):
         exp_targets = sorted(ja.get("targets", []))
         desc["analyze_targets"] = exp_targets
     struct = [[sorted(g.keys()) for g in r["target_groups"]] for r in j["results"]]
+    # a wrong selection / structure is C05's finding; the order and latch checks further down are
+    # still made on whatever the run did (they belong to other properties)
+    struct_bad = False
     for s in struct:
         flat = sorted(x for g in s for x in g)
         if flat != exp_targets:
             verdicts.append(("C05", {"kind": "the run did not cover exactly the selected targets", "scenario": desc,
                                      "expected": exp_targets, "observed": s}))
-            return verdicts, info
+            struct_bad = True
+            break
     if not sc.named:
         want = [sorted(g) for g in (ja or {}).get("target_groups", [])]
     elif sc.deps:
@@ -274,21 +317,25 @@ def observe(sc, repo, model, timeout=120):
     else:
         want = None
     for s in struct:
+        if struct_bad:
+            break
         if want is not None and s != want:
             verdicts.append(("C05", {"kind": "target groups differ from what analyze / the dependency layering shows",
                                      "scenario": desc, "expected": want, "observed": s}))
-            return verdicts, info
-        if want is None and (any(len(g) != 1 for g in s)):
+            struct_bad = True
+        elif want is None and (any(len(g) != 1 for g in s)):
             verdicts.append(("C05", {"kind": "target groups differ from what analyze / the dependency layering shows",
                                      "scenario": desc, "expected": "one target at a time", "observed": s}))
-            return verdicts, info
+            struct_bad = True
     # the selection model (`Model/Select.lean`: selectGroups), for every mode
     mt = [{"path": t["path"], "uses": t.get("uses", []), "ignores": []} for t in sc.targets]
     mode = "changed" if not sc.named else ("deps" if sc.deps else "named")
     names = exp_targets if not sc.named else sc.named
     ms = model.ask({"op": "select", "targets": mt, "mode": mode, "names": names})
     mg = ms["model"].get("ok")
-    if mg is None:
+    if struct_bad:
+        pass
+    elif mg is None:
         verdicts.append(("MODEL", {"kind": "the selection model rejects a configuration the run accepted", "scenario": desc, "model": ms["model"]}))
     else:
         mgs = [sorted(g) for g in mg]
@@ -342,45 +389,38 @@ def observe(sc, repo, model, timeout=120):
             ended.append([ids[k], tr["exit"]])
             times.append([ids[k], tr["start_ns"], tr["end_ns"]])
     obs = {"results": results, "failed": j["failed"], "exit": rc, "started": started, "ended": ended, "times": times}
-    # C04: a target's executable starts only after the executables of everything it depends on
-    # (documented relation, recomputed here from the configuration) have exited - for the selection
-    # modes that promise dependency order (plain -t runs the named targets one at a time, in no
-    # particular order)
+    # C04, judged on the processes themselves (the helper records of every started executable),
+    # independently of the result document: (1) a target's executable starts only after the
+    # executables of everything it depends on (documented relation, recomputed here from the
+    # configuration) have exited - for the selection modes that promise dependency order (plain -t
+    # runs the named targets one at a time, in no particular order); (2) no executable of a later
+    # command starts before every executable of the previous commands has exited
     dep_violation = False
-    if not sc.named or sc.deps:
-        adj = rungen.deps_of(sc.targets)
-        paths = [t["path"] for t in sc.targets]
-        tm = {e[0]: e for e in times}
-        for c in cmds:
-            for i, p in enumerate(paths):
-                a = ids.get((c, p))
-                if a is None or a not in tm:
-                    continue
-                for k in adj[i]:
-                    b = ids.get((c, paths[k]))
-                    if b is None or b not in started:
-                        continue
-                    if b not in tm or tm[b][2] > tm[a][1]:
-                        verdicts.append(("C04", {"kind": "an executable started before the executable of a target it depends on had exited",
-                                                 "scenario": desc, "command": c, "target": p, "dependency": paths[k],
-                                                 "plan": plan, "observation": obs}))
-                        dep_violation = True
-                        break
-                if dep_violation:
+    by_key = {}
+    for tr in traces:
+        by_key[(tr["command"], label.get(tr["target"], tr["target"]))] = tr
+    paths = [t["path"] for t in sc.targets]
+    pidx = {p: i for i, p in enumerate(paths)}
+    pos = {c: n for n, c in enumerate(cmds)}
+    adj = rungen.deps_of(sc.targets)
+    for (c, p), a in sorted(by_key.items()):
+        if dep_violation or c not in pos or p not in pidx:
+            continue
+        if not sc.named or sc.deps:
+            for k in adj[pidx[p]]:
+                b = by_key.get((c, paths[k]))
+                if b is not None and ("end_ns" not in b or b["end_ns"] > a["start_ns"]):
+                    verdicts.append(("C04", {"kind": "an executable started before the executable of a target it depends on had exited",
+                                             "scenario": desc, "command": c, "target": p, "dependency": paths[k],
+                                             "plan": plan, "observation": obs}))
+                    dep_violation = True
                     break
-            if dep_violation:
-                break
-    # C04, second clause: no executable of a later command starts before every executable of the
-    # previous commands has exited (every selection mode)
-    if not dep_violation:
-        tm = {e[0]: e for e in times}
-        cmd_of = {v: k[0] for k, v in ids.items()}
-        pos = {c: n for n, c in enumerate(cmds)}
-        for a in sorted(tm):
-            late = [b for b in started if pos[cmd_of[b]] < pos[cmd_of[a]] and (b not in tm or tm[b][2] > tm[a][1])]
-            if late:
+        if dep_violation:
+            break
+        for (c2, p2), b in by_key.items():
+            if c2 in pos and pos[c2] < pos[c] and ("end_ns" not in b or b["end_ns"] > a["start_ns"]):
                 verdicts.append(("C04", {"kind": "an executable of a later command started before every executable of the previous command had exited",
-                                         "scenario": desc, "later": a, "still_running": late[0], "plan": plan, "observation": obs}))
+                                         "scenario": desc, "later": [c, p], "still_running": [c2, p2], "plan": plan, "observation": obs}))
                 dep_violation = True
                 break
     fou = sc.fail_on_undefined
